@@ -39,7 +39,7 @@ SUFFIX = "fasta"
 def bounds(tier):
     return {
         "quick": {"ids": ["a", "ba", "a.fasta", "fasta1"], "payloads": ["d1", "d2"], "depth": 3, "init_modes": ["w", "a"]},
-        "thorough": {"ids": ["a", "ba", "a.fasta", "fasta1", "b", "a.b"], "payloads": ["d1", "d2"], "depth": 4, "init_modes": ["w", "a"]},
+        "thorough": {"ids": ["a", "ba", "a.fasta", "fasta1", "b", "a.b"], "payloads": ["d1", "d2"], "depth": 3, "init_modes": ["w", "a"]},
     }[tier]
 
 
